@@ -351,3 +351,16 @@ Proof.
     { apply filter_In. split; [exact Hg|]. now rewrite Hs. }
     rewrite Hc in Hin. destruct Hin.
 Qed.
+
+(** * 7. TXT.PUBLIC.KEY: the field table does not cover the register (open finding
+      C04-TXTPublicKey-bitsize-wraps-to-0).  The register has 256 bits; [BitSize()] and
+      [Field.BitSize] are uint8, [uint8(32*8) = 0]: the one field has size 0. *)
+Theorem key_field_covers_register_refuted :
+  exists tabs s key ob s',
+    length key = 32%nat /\ step tabs s (OpKeyFields key) = Some (ob, s') /\
+    ~ (exists n bytes a, ob = [(n, 0, 256, bytes, a)]).
+Proof.
+  exists [], empty_state, (repeat 0 32). eexists. eexists.
+  split; [reflexivity|]. split; [reflexivity|].
+  intros [n [bytes [a H]]]. injection H as _ Hs _ _. discriminate Hs.
+Qed.
